@@ -6,7 +6,9 @@ Require Import CallGraph.
 Open Scope string_scope.
 
 Definition plain_builtins : list string :=
-  ["ConstructorError"; "isinstance"; "len"; "set"; "int"; "float"; "next"; "hasattr"; "str"; "bool"; "list"; "dict"; "tuple"; "range"; "enumerate"; "sorted"; "bytes"; "ord"; "chr"; "ValueError"].
+  ["ConstructorError"; "isinstance"; "len"; "set"; "int"; "float"; "next"; "hasattr"; "str"; "bool"; "list"; "dict"; "tuple"; "range"; "enumerate"; "sorted"; "bytes"; "ord"; "chr"; "ValueError";
+   (* further builtins that build no object of a document-chosen class, import nothing and call nothing they are given *)
+   "reversed"; "min"; "max"; "sum"; "abs"; "any"; "all"; "zip"; "iter"; "frozenset"; "divmod"; "repr"; "callable"; "slice"; "TypeError"; "KeyError"; "IndexError"; "OverflowError"].
 Definition plain_modules : list string := ["datetime"; "base64"; "binascii"; "re"].
 Definition data_methods : list string :=          (* methods of str / list / dict / set / re objects *)
   ["update"; "extend"; "append"; "reverse"; "match"; "groupdict"; "encode"; "lower"; "replace"; "split"; "rsplit"; "startswith"; "get"; "items"; "keys";
